@@ -49,7 +49,7 @@ def _check_valid_probability(x: float, name: str) -> None:
     wrong, raises a ValueError with a message including the variable
     ``name``.
     """
-    if x < 0 or x > 1:
+    if not (0 <= x <= 1):  # also rejects nan
         raise ValueError(f"{name} must be between 0 and 1 (inclusive) but it was {x}.")
 
 
